@@ -248,6 +248,10 @@ func (g *gen) runParsers() {
 	}
 	snd, rcv := userAddr(1, 0), userAddr(2, 0)
 	tok := []byte("TOK-123456")
+	// the builder as an object: reads between the calls, SetLast / Clear after a read, SetLast on an empty builder
+	g.emit("buildseq f:" + sx("transfer") + " b:0102 b:03 r l:" + sx("aabb") + " r g r")
+	g.emit("buildseq r l:" + sx("00") + " r g f:" + sx("f") + " r c r g")
+	g.emit("buildseq f:" + sx("f") + " i:0 i:-1 i:256 t x y:00 s:" + sx("@") + " r c f:" + sx("g") + " r b: r")
 	g.randomPart(func() {
 		switch g.r.Intn(10) {
 		case 0, 1: // random longer strings for the three string parsers
@@ -280,6 +284,32 @@ func (g *gen) runParsers() {
 			if d, ok := okData(g.emit(line)); ok {
 				g.emitf("parsecall %s", d)
 			}
+		case 7: // one builder object through a sequence of calls, reads in between (a read reflects every call before it)
+			steps := []string{"f:" + hx(g.randFnName())}
+			for i := 2 + g.r.Intn(8); i > 0; i-- {
+				switch g.r.Intn(12) {
+				case 0, 1, 2:
+					steps = append(steps, "b:"+hexField(g.randArg()))
+				case 3:
+					steps = append(steps, "s:"+hexField(g.randArg()))
+				case 4:
+					steps = append(steps, fmt.Sprintf("y:%02x", g.r.Intn(256)))
+				case 5:
+					steps = append(steps, fmt.Sprintf("i:%d", []int64{0, 1, -1, 255, 256, -256, 1<<62 + 3, -(1 << 62)}[g.r.Intn(8)]))
+				case 6:
+					steps = append(steps, []string{"t", "x"}[g.r.Intn(2)])
+				case 7:
+					steps = append(steps, "c", "f:"+hx(g.randFnName()))
+				case 8, 9:
+					steps = append(steps, "r")
+				case 10:
+					steps = append(steps, "r", "l:"+hexField([]byte(hex.EncodeToString(g.randArg()))))
+				default:
+					steps = append(steps, "g")
+				}
+			}
+			steps = append(steps, "r")
+			g.emit("buildseq " + strings.Join(steps, " "))
 		case 6: // buildstorage then parsestorage
 			n := g.r.Intn(4)
 			items := make([]string, n)
@@ -580,6 +610,14 @@ func (g *gen) runCodec() {
 		op := op
 		g.family(len(small), func(i int) { g.emitf("%s %s", op, sx(small[i])) })
 	}
+	// unknown fields the decoders have to SKIP, at top level, inside an unknown group and inside a nested one: length
+	// prefixes and varints at the 31 / 32 / 63 / 64-bit boundaries (an index that wraps around must be an error, never a
+	// panic), truncated fixed-width fields, illegal wire types, unbalanced groups - alone and after a valid prefix
+	skips := skipStreams()
+	for _, op := range []string{"dectoken", "decmeta", "decroles"} {
+		op := op
+		g.family(len(skips), func(i int) { g.emitf("%s %s", op, hx(skips[i])) })
+	}
 	var valid [][]byte
 	keep := func(b []byte) {
 		if b != nil && len(valid) < 200 {
@@ -625,6 +663,49 @@ func (g *gen) runCodec() {
 			g.emitf("%s %s", []string{"dectoken", "decmeta", "decroles"}[g.r.Intn(3)], hx(b))
 		}
 	})
+}
+
+func uvarint(n uint64) []byte {
+	var b []byte
+	for n >= 128 {
+		b = append(b, byte(n%128+128))
+		n /= 128
+	}
+	return append(b, byte(n))
+}
+
+// skipStreams: see runCodec. Field number 15 (unknown to all three messages): 0x78 varint, 0x79 fixed64, 0x7a
+// length-delimited, 0x7b start group, 0x7c end group, 0x7d fixed32, 0x7e / 0x7f illegal wire types.
+func skipStreams() [][]byte {
+	lens := []uint64{0, 1, 2, 127, 128, 1<<31 - 1, 1 << 31, 1<<32 - 1, 1 << 32, 1<<62 + 1, 1<<63 - 12, 1<<63 - 1, 1 << 63, 1<<64 - 1}
+	var payloads [][]byte
+	for _, l := range lens {
+		p := append([]byte{0x7a}, uvarint(l)...)
+		payloads = append(payloads, p, append(append([]byte{}, p...), 0xaa, 0xbb))
+		payloads = append(payloads, append([]byte{0x78}, uvarint(l)...))
+	}
+	payloads = append(payloads,
+		[]byte{0x78, 0xff, 0xff, 0xff, 0xff, 0xff, 0xff, 0xff, 0xff, 0xff, 0x01}, // 10-byte varint, top bits set
+		[]byte{0x78, 0xff, 0xff, 0xff, 0xff, 0xff, 0xff, 0xff, 0xff, 0xff, 0xff, 0x01}, // 11 bytes: overflow
+		[]byte{0x79, 1, 2, 3, 4, 5, 6, 7, 8}, []byte{0x79, 1, 2, 3}, []byte{0x7d, 1, 2, 3, 4}, []byte{0x7d, 1},
+		[]byte{0x7e}, []byte{0x7f, 0}, []byte{0x7c}, []byte{0x7b}, []byte{0x7b, 0x7b, 0x7c}, []byte{0x7b, 0x84, 0x01},
+		[]byte{0x7a, 0x80}, []byte{0x78, 0x80})
+	prefixes := [][]byte{nil, {0x08, 0x01, 0x12, 0x02, 0x00, 0x05}, {0x0a, 0x01, 0x61}}
+	var out [][]byte
+	for _, pre := range prefixes {
+		for _, p := range payloads {
+			cat := func(parts ...[]byte) []byte {
+				b := append([]byte{}, pre...)
+				for _, x := range parts {
+					b = append(b, x...)
+				}
+				return b
+			}
+			out = append(out, cat(p), cat([]byte{0x7b}, p, []byte{0x7c}), cat([]byte{0x7b}, p),
+				cat([]byte{0x7b, 0x73}, p, []byte{0x74, 0x7c}), cat([]byte{0x7b}, p, []byte{0x7c, 0x08, 0x01}))
+		}
+	}
+	return out
 }
 
 // ---------------------------------------------------------------------------
